@@ -26,6 +26,7 @@ import BufrModel.Drv.WidthsOp
 import BufrModel.Drv.QueryOp
 import BufrModel.Drv.TextOp
 import BufrModel.Drv.HistoryOp
+import BufrModel.Drv.JsonTextOp
 open Lean Bufr.Drv
 
 /-- stateless operations: one line per op -/
@@ -47,6 +48,7 @@ def statelessOps : List (String × (Json → J Json)) :=
   ("links-spec", opLinksSpec) ::
   ("pyslice", opPySlice) ::
   ("parser-history", opParserHistory) ::
+  ("jsontext", opJsonText) ::
   []
 
 /-- operations that read or change the driver state -/
